@@ -376,29 +376,20 @@ func (n *Net) InFlight() int64 { return atomic.LoadInt64(&n.inflight) }
 // Context is cancelled by Close.
 func (n *Net) Context() context.Context { return n.ctx }
 
-// Close stops the services and releases the databases (in the background: closing a
-// kademlia that was never started waits five seconds). Wait blocks until that is done.
+// Close stops the services (their context is cancelled) and releases the databases. The
+// kademlia instances are not closed: they were never started, Close would wait five
+// seconds for the absent manage loop and then write metrics into the shared database.
 func (n *Net) Close() {
 	n.cancel()
-	n.closers.Add(1)
-	go func() {
-		defer n.closers.Done()
-		var wg sync.WaitGroup
-		for _, nd := range n.Nodes {
-			wg.Add(1)
-			go func(nd *Node) { defer wg.Done(); _ = nd.Kad.Close() }(nd)
-		}
-		wg.Wait()
-		if n.mdb != nil {
-			_ = n.mdb.Close()
-		}
-		if n.store != nil {
-			_ = n.store.Close()
-		}
-	}()
+	if n.mdb != nil {
+		_ = n.mdb.Close()
+	}
+	if n.store != nil {
+		_ = n.store.Close()
+	}
 }
 
-// Wait waits for the background part of Close.
+// Wait is kept for callers that want to be sure nothing of the network runs any more.
 func (n *Net) Wait() { n.closers.Wait() }
 
 type streamer struct {
